@@ -826,6 +826,56 @@ def observed_keys(d):
     return None
 
 
+def py_agg_ok(h, L, entries, des):
+    """Python rendering of C07chk.agg_ok: the observed aggregated mapper (reified entries) against the
+    declarative chain, at every level"""
+    o = {k: v for k, v in entries}
+    for n, fk in all_fields(h):
+        want = py_chain(L, n)
+        got = o.get(n)
+        if got is None or (got != ["donot"] if want is None else got != ["key", want]):
+            return False
+        if fk is None:
+            continue
+        sub = None
+        if des and want is not None:
+            sub = o.get(want + SUFFIX)
+        if sub is None:
+            sub = o.get(n + SUFFIX)
+        if sub is not None and sub[0] == "sub":
+            if not py_agg_ok(fk[1], nested_list(L, n, fk[1]), sub[1], des):
+                return False
+        elif all_fields(fk[1]) and not (des and want is None):
+            return False
+    return True
+
+
+def full_instance(h, counter):
+    """every field populated, one element per collection"""
+    out = []
+    for n, fk in all_fields(h):
+        if fk is None:
+            counter[0] += 1
+            out.append([n, ["s", counter[0]]])
+        elif fk[0] == "ref":
+            out.append([n, ["st", full_instance(fk[1], counter)]])
+        else:
+            out.append([n, ["l", [["st", full_instance(fk[1], counter)]]]])
+    return out
+
+
+def doc_clause_fails(case, obs):
+    """the key-set clause evaluated in Python on the observed documents (as replay does)"""
+    for flag in (False, True):
+        o = obs[flag]
+        if o["doc_py"] is None:
+            return True
+        want = expected_keys(case["h"], used_list(case["h"], case["override"], flag), case["x"])
+        if canon_keys(observed_keys(o["doc_py"])) != canon_keys(want):
+            return True
+    return False
+
+
 def canon_keys(t):
     """key structures compare order-free in their lists"""
     import json
@@ -862,6 +912,13 @@ def replay(obj):
         if canon_keys(got) != canon_keys(want):
             bad = 1
             print("  FAILS: key sets differ from the image under the declared chain")
+        for des, name in ((False, "ser_agg"), (True, "des_agg")):
+            if o[name][0] != "ok" or not py_agg_ok(case["h"], L, o[name][1], des):
+                print("  aggregated %s mapper differs from the declared chain (the document of an instance that "
+                      "populates the affected field shows it)" % ("deserialization" if des else "serialization"))
+                if obj.get("clause") == "agg":
+                    bad = 1
+                    print("  FAILS: aggregated mapper is not the rename chain")
         if not o["rt_equal"] and obj.get("clause") == "roundtrip" and obj.get("flag") == flag:
             bad = 1
             print("  FAILS: Deserializer(cls).deserialize(Serializer(x).serialize()) != x")
@@ -1072,19 +1129,45 @@ def run(rep, tier):
                        f"{len(sets['unmodelled'])} of {len(live)} cases fall outside the model's domain: inconclusive")
         # spec clauses -> findings
         by_idx = {i: (c, o) for i, c, o in live}
-        for i in sorted(sets["spec_fail"]):
+        doc_level = sets["sk_F"] | sets["sk_T"]
+        # cases that also deviate from the model of the pinned code get the (unlisted) key below: report one
+        # whose DOCUMENT shows the failure, so that the replay is a failing input of the property itself
+        # (a deviation in the deserialization RESULT only does not explain a wrong aggregated mapper / document:
+        # those are judged by the round-trip clause below)
+        mm_spec = sets["m_ser_agg"] | sets["m_des_agg"] | sets["m_doc"]
+        viol = sorted((i for i in sets["spec_fail"] if i in mm_spec), key=lambda i: (i not in doc_level, i))
+        order = viol + sorted(i for i in sets["spec_fail"] if i not in mm_spec)
+        witness = {}
+        if viol and viol[0] not in doc_level:
+            # only aggregated mappers deviate so far: look for an instance whose document shows it --
+            # the same classes with every field populated
+            for i in viol[:40]:
+                c, o = by_idx[i]
+                c2 = dict(c, x=full_instance(c["h"], [900000]))
+                try:
+                    obs2, src2, _, _ = run_impl(c2, i, prefix="S")
+                except Exception:  # noqa
+                    continue
+                if doc_clause_fails(c2, obs2):
+                    witness[i] = (c2, (obs2, src2))
+                    order.remove(i)
+                    order.insert(0, i)
+                    break
+        for i in order:
             c, o = by_idx[i]
-            if i not in sets["mismatch"] and has_gap(c["h"]):
+            if i in witness:
+                c, o = witness[i]
+            if i not in mm_spec and has_gap(c["h"]):
                 key = "C07/agg/inherited-mapper-reapplied"
                 what = ("a class that declares no mapper of its own collects its parent's declaration a second time "
                         "(getattr inheritance in _get_all_values_of_attribute): keys differ from the declared chain")
-            elif (i not in sets["mismatch"] and i not in sets["spec_ser"]
+            elif (i not in mm_spec and i not in sets["spec_ser"]
                   and renamed_nested_entry(c["h"], used_list(c["h"], c["override"], False))):
                 key = "C07/agg/deser-nested-entry-keyed-by-renamed-field"
                 what = ("after a dict renamed a nested field, a later '<field>._mapper' entry is found by serialization "
                         "(looked up under the field name) but not by deserialization (looked up under the current key), "
                         "or vice versa: the two aggregated mappers disagree for the nested class")
-            elif i not in sets["mismatch"]:
+            elif i not in mm_spec:
                 key = "C07/agg/same-entry-shortcut"
                 what = ("add_mapper_to_aggregation keeps an entry unchanged when the later dict maps the FIELD NAME "
                         "to the current key, although the dict also renames that current key")
@@ -1092,14 +1175,17 @@ def run(rep, tier):
                 key = "C07/keys/not-the-image-under-the-declared-chain"
                 what = ("aggregated mapper or serialized key set differs from rename_chain over the declared mappers "
                         "(and from the model of the pinned code)")
-            rep.finding(key, what, {"h": c["h"], "override": c["override"], "x": c["x"], "entry": c.get("entry", "wrapper"), "history": c.get("history", "fresh"), "clause": "keys",
+            rep.finding(key, what, {"h": c["h"], "override": c["override"], "x": c["x"], "entry": c.get("entry", "wrapper"), "history": c.get("history", "fresh"),
+                                    "clause": "keys" if (i in doc_level or i in witness) else "agg",
                                     "python": python_src(c, o[1])})
         for flag, app, cap, mod, unm in ((False, "rt_app_F", "rt_cap_F", "rt_mod_F", "rt_unm_F"),
                                          (True, "rt_app_T", "rt_cap_T", "rt_mod_T", "rt_unm_T")):
             for i in sorted(sets[app]):
                 c, o = by_idx[i]
-                if o[0][flag]["rt_equal"] or i in sets["spec_fail"]:
+                if o[0][flag]["rt_equal"]:
                     continue
+                if i in sets["spec_fail"] and (i in sets[mod] or i in sets[unm]):
+                    continue        # the pinned code's behaviour, explained by the key-set failure reported above
                 if i in sets[cap] and (i in sets[mod] or i in sets[unm]):
                     key = "C07/roundtrip/unpopulated-field-captures-key"
                     what = ("an unpopulated field whose NAME equals another field's key takes that field's value on "
